@@ -70,6 +70,21 @@ def in_cal(cid: str, total: int) -> bool:
     return c._min_days <= total // DAY <= c._max_days
 
 
+ACCESSORS = (
+    "year", "month", "day", "year_of_era", "era", "day_of_year", "day_of_week", "hour", "minute", "second", "millisecond",
+    "tick_of_second", "tick_of_day", "nanosecond_of_second", "nanosecond_of_day", "clock_hour_of_half_day", "calendar",
+)  # fmt: skip
+
+
+def accessor_parity(obj, ldt, what: str) -> None:
+    """Every field accessor the compound value offers reads the same as on its own local date-time (whose accessors
+    are C01's and C10's subject)."""
+    for nm in ACCESSORS:
+        if hasattr(type(obj), nm) and hasattr(type(ldt), nm):
+            a, b = getattr(obj, nm), getattr(ldt, nm)
+            need(a == b, f"{what}/accessor/{nm}", f"{a!r} != {b!r}")
+
+
 def check_odt(odt, i: int, o: int, cid: str, what: str) -> None:
     from pyoda_time import OffsetDateTime
 
@@ -84,6 +99,8 @@ def check_odt(odt, i: int, o: int, cid: str, what: str) -> None:
     need(odt.nanosecond_of_day == total % DAY, f"{what}/nanosecond_of_day")
     need(pyo.fields(odt.date) == pyo.fields(pyo.date_from_day(cid, total // DAY)), f"{what}/date-fields")
     need((odt.year, odt.month, odt.day) == pyo.fields(odt.date), f"{what}/ymd-accessors")
+    accessor_parity(odt, odt.local_date_time, what)
+    need(odt.time_of_day == odt.local_date_time.time_of_day and odt.date == odt.local_date_time.date, f"{what}/parts")
 
 
 def expect_odt(fn, i: int, o: int, cid: str, what: str) -> bool:
@@ -156,6 +173,8 @@ def _k_odt(c) -> CaseInfo:
     need(od.date == a.date and od.offset.seconds == o and od.calendar is cal, "to_offset_date")
     need(ot.nanosecond_of_day == total % DAY and ot.offset.seconds == o, "to_offset_time")
     need(od.at(a.time_of_day) == a, "OffsetDate.at")
+    accessor_parity(od, a.date, "OffsetDate")
+    accessor_parity(ot, a.time_of_day, "OffsetTime")
     need(ot.on(a.date) == a, "OffsetTime.on")
     need(OffsetDate(a.date, O).with_offset(O2).offset.seconds == o2 and OffsetDate(a.date, O).with_offset(O2).date == a.date, "OffsetDate.with_offset")
     need(OffsetTime(a.time_of_day, O).with_offset(O2).time_of_day == a.time_of_day, "OffsetTime.with_offset")
@@ -205,6 +224,8 @@ def _k_zdt(c) -> CaseInfo:
         need(zz.calendar is cal, f"{what}/calendar", f"{zz.calendar.id}")
         need(zz.zone is zone, f"{what}/zone")
         need(zz.to_offset_date_time().offset.seconds == oo and inst_ns(zz.to_offset_date_time().to_instant()) == ii, f"{what}/to_offset_date_time")
+        accessor_parity(zz, zz.local_date_time, what)
+        need(zz.date == zz.local_date_time.date and zz.time_of_day == zz.local_date_time.time_of_day, f"{what}/parts")
 
     check(z, i, "in_zone")
     z2 = ZonedDateTime(instant=I, zone=zone, calendar=cal)
